@@ -1,0 +1,33 @@
+//go:build verif
+
+package signing
+
+import (
+	"math/big"
+
+	"github.com/bnb-chain/tss-lib/tss"
+	"github.com/keep-network/keep-core/pkg/protocol/group"
+)
+
+// Verification hook (build tag verif) for property C08: re-exports the signing
+// identity converter only.
+
+// VerifC08MemberIndexToKey is identityConverter.MemberIndexToTssPartyIDKey.
+func VerifC08MemberIndexToKey(keys []*big.Int, idx group.MemberIndex) *big.Int {
+	return (&identityConverter{keys: keys}).MemberIndexToTssPartyIDKey(idx)
+}
+
+// VerifC08PartyIDToMemberIndex is identityConverter.TssPartyIDToMemberIndex
+// on a party ID built from the raw key.
+func VerifC08PartyIDToMemberIndex(keys []*big.Int, key *big.Int) group.MemberIndex {
+	return (&identityConverter{keys: keys}).TssPartyIDToMemberIndex(
+		tss.NewPartyID(key.Text(10), "", key),
+	)
+}
+
+// VerifC08RoundTrip is MemberIndexToTssPartyID followed by
+// TssPartyIDToMemberIndex.
+func VerifC08RoundTrip(keys []*big.Int, idx group.MemberIndex) group.MemberIndex {
+	ic := &identityConverter{keys: keys}
+	return ic.TssPartyIDToMemberIndex(ic.MemberIndexToTssPartyID(idx))
+}
